@@ -313,3 +313,19 @@ Proof.
   - eapply outcome_eq_trans; [apply IH1; exact HF|].
     apply IH2. eapply Permutation_Forall; [exact HP1 | exact HF].
 Qed.
+
+Lemma perm_after_value_lemma v ops ops' :
+  Permutation ops ops' ->
+  forall s, refinement_ops (kind_of s) ops ->
+  outcome_eq (run ((MCall, v) :: ops) s) (run ((MCall, v) :: ops') s).
+Proof.
+  intros HP s HR. cbn [run].
+  destruct (decl MCall s v) as [s1| |] eqn:E; cbn [bind outcome_eq]; auto.
+  apply perm_same_outcome_lemma; [exact HP|]. rewrite (decl_kind _ _ _ _ E). exact HR.
+Qed.
+
+Lemma value_does_not_commute_lemma :
+  exists s v a, outcome_eq (then2 MCall v MMin a s) (then2 MMin a MCall v s) -> False.
+Proof.
+  exists (bare KdInt), [AVal (VInt 5%Z)], [AVal (VInt 3%Z)]. vm_compute. auto.
+Qed.
